@@ -8,6 +8,9 @@
   the HPACK encoder exactly the normalised list, only when it is conformant, and nothing otherwise.
 -/
 import H2.Proofs.HeaderRules
+import H2.Proofs.PairHeaders
+-- the pair-level consequence: what C14 lets out, C15 lets in
+-- @also H2.Pair.emitted_block_is_accepted
 import H2.Proofs.RecvStream
 
 namespace H2.C14
